@@ -280,6 +280,17 @@ func runC14(r *mc.Run) {
 		hp(p3).MinimumQeSvn = v
 		add(fmt.Sprintf("svn/full,qe=%d", v), p3)
 	}
+	// both header minima together (each is its own expectation; pairs whose sum, difference or bytes coincide)
+	{
+		set := []uint32{0, 1, 2, 0x00ff, 0x0100, 0x0208, 0x0209, 0x0d07, 0x0d08, 0x7fff, 0x8000, 0x8001, 25536, 40000, 0xfffe, 0xffff, 0x10000}
+		for _, a := range set {
+			for _, b := range set {
+				p := &ccpb.Policy{}
+				hp(p).MinimumQeSvn, hp(p).MinimumPceSvn = a, b
+				add(fmt.Sprintf("nearmiss/svn/min-qe=%#x,min-pce=%#x", a, b), p)
+			}
+		}
+	}
 	// RTMR lists 0..5 over {empty, full, short, different}
 	rk := []string{"em", "fu", "sh", "df"}
 	for n := 0; n <= 5; n++ {
